@@ -62,6 +62,13 @@ def interesting(beh):
     return pubs >= 2 and views
 
 
+RULE = ("exhaustive TLC on bounded configurations of PreConfirmed.tla (call sequences of any length over <= 2/3 slots, head "
+        "0..2/3, ids {a,b,blank}, 0..2 txs; poller split at its waits against an arbitrary data source) + schema-uniform TLC "
+        "simulation behaviours of 28 steps (ApplyUpdate full/delta/no-change incl. rogue arguments, AdvanceTo, head "
+        "advance/revert with fork variants, snapshots; poller ticks with backfill) replayed step by step on the real "
+        "ChainStorage / Poller over a real Blockchain (both state backends), and concurrent reader runs validated by TLC; "
+        "non-trivial behaviour = publishes >= 2 chains and hands out >= 1 non-empty view")
+
 STORAGE_CASES = [
     "ApplyUpdate:bootstrap", "ApplyUpdate:extend", "ApplyUpdate:replace-tip", "ApplyUpdate:replace-truncate",
     "ApplyUpdate:preserved", "ApplyUpdate:delta", "ApplyUpdate:nochange-classes", "ApplyUpdate:nochange-known",
@@ -204,6 +211,9 @@ def run(ctx):
     ctx.coverage["behaviours_storage_nontrivial"] = sum(1 for b in behaviours if interesting(b))
     ctx.coverage["steps_replayed_storage"] = res.get("steps", 0)
 
+    if ctx.violations:      # decisive already; do not drive a diverging implementation concurrently
+        return ctx.finish("model_checking", RULE)
+
     # ---- 2b. the real Poller under the gated environment
     pruns = 4 if thorough else 1
     pdepth = (MBT_STEPS + 1) * (300 if thorough else 120)
@@ -217,9 +227,12 @@ def run(ctx):
     ctx.coverage["behaviours_poller_nontrivial"] = sum(1 for b in pbehaviours if interesting(b))
     ctx.coverage["steps_replayed_poller"] = res.get("steps", 0)
 
+    if ctx.violations:
+        return ctx.finish("model_checking", RULE)
+
     # ---- 2c. concurrent readers vs. one replaying writer; TLC explains every read
     cb = [b for b in behaviours if interesting(b)][: (120 if thorough else 30)]
-    payload = {"tables": tables, "behaviours": cb, "readers": 6 if thorough else 4, "iters": 6 if thorough else 3}
+    payload = {"tables": tables, "behaviours": cb, "readers": 6 if thorough else 4, "iters": 20 if thorough else 10}
     res = ctx.run_engine(binary, "TestPreconfConc", payload, timeout=2400)
     ctx.absorb(res, ENGINE, "TestPreconfConc")
     st = res.get("stats", {})
@@ -230,6 +243,10 @@ def run(ctx):
             raise vlib.Broken("the concurrent readers never saw a non-empty view (vacuous run)")
         if validate_trace(ctx, st["trace_file"], st["trace_iter_start_lines"]):
             selftest_trace(ctx, st["trace_file"], st["trace_iter_start_lines"])
+    if not res.get("divergences") and not st.get("conc_reads_racing_a_write"):
+        raise vlib.Broken("no concurrent read overlapped a write (the concurrent part was vacuous)")
+    for noisy in ("trace_file", "trace_iter_start_lines"):
+        ctx.coverage.pop(noisy, None)
     ctx.coverage["concurrent_runs"] = st.get("conc_iterations", 0)
     ctx.coverage["trace_events_validated"] = st.get("trace_lines", 0)
 
@@ -241,11 +258,4 @@ def run(ctx):
         "in the concurrent part the canonical chain is immutable history (head moves are a model variable the readers align to); "
         "fork/revert below a live view is covered by the sequential replay and the poller run",
     ]
-    return ctx.finish(
-        "model_checking",
-        "exhaustive TLC on bounded configurations of PreConfirmed.tla (call sequences of any length over <= 2/3 slots, head "
-        "0..2/3, ids {a,b,blank}, 0..2 txs; poller split at its waits against an arbitrary data source) + schema-uniform TLC "
-        "simulation behaviours of 28 steps (ApplyUpdate full/delta/no-change incl. rogue arguments, AdvanceTo, head "
-        "advance/revert with fork variants, snapshots; poller ticks with backfill) replayed step by step on the real "
-        "ChainStorage / Poller over a real Blockchain (both state backends), and concurrent reader runs validated by TLC; "
-        "non-trivial behaviour = publishes >= 2 chains and hands out >= 1 non-empty view")
+    return ctx.finish("model_checking", RULE)
